@@ -27,6 +27,9 @@ const (
 	allocBase    = 64 << 10 // bytes
 	allocPerByte = 1 << 10
 	cpuBound     = 20.0 // seconds per input
+	// a case that has used this much process CPU without returning is reported by the worker's
+	// watchdog as a loop (three times the bound that is a violation anyway once the call returns)
+	caseCPULimit = 60.0
 )
 
 // ---------------------------------------------------------------- corpus
@@ -577,6 +580,9 @@ func observe(w mon.Sink, wk *mon.Worker, class, id string, in []byte, desc strin
 	}
 	var roots []*tboc.Cell
 	var err error
+	if wk != nil {
+		wk.Note("DeserializeBoc")
+	}
 	m := mon.StartMeter()
 	p := mon.Guard(func() { roots, err = tboc.DeserializeBoc(in) })
 	cpu, alloc, _ := m.Stop()
@@ -622,6 +628,9 @@ func observe(w mon.Sink, wk *mon.Worker, class, id string, in []byte, desc strin
 				w.Count("tostring_skipped_large_unfolding", 1)
 			}
 			for _, op := range ops {
+				if wk != nil {
+					wk.Note(op + "(parsed root)")
+				}
 				t0 := mon.CPUSeconds()
 				var oerr error
 				p := mon.Guard(func() {
@@ -699,6 +708,109 @@ func observeText(w mon.Sink, wk *mon.Worker, id string, in []byte, rng *mon.Rng)
 		}
 		w.Eval("")
 	}
+}
+
+// ---------------------------------------------------------------- small-header grid
+
+// headerGrid enumerates every combination of a few small values of every header field, for each of the
+// three magics, over 0..2 supplied cells: the corners where one counter is 0 while another part of the
+// header still says "there is something" (a root list of one entry over zero cells, an index over zero
+// cells, absent > cells, ...). Mixed radix over idx; gridSize = product of the radices.
+var gridRadix = []int{3 /*magic*/, 8 /*flags*/, 2 /*size*/, 2 /*off*/, 4 /*cells*/, 3 /*roots*/, 2 /*absent*/, 3 /*supplied*/, 3 /*root index*/, 2 /*tot*/}
+
+var gridSize = func() int {
+	n := 1
+	for _, r := range gridRadix {
+		n *= r
+	}
+	return n
+}()
+
+func headerGrid(idx int) ([]byte, string) {
+	d := make([]int, len(gridRadix))
+	x := idx
+	for i, r := range gridRadix {
+		d[i] = x % r
+		x /= r
+	}
+	r := &rawBoc{flagByte: -1}
+	r.magic = []uint32{rboc.MagicGeneric, rboc.MagicIdx, rboc.MagicIdxCRC}[d[0]]
+	r.size, r.off = d[2]+1, d[3]+1
+	if r.magic == rboc.MagicGeneric {
+		r.hasIdx, r.cache = d[1]&1 != 0, d[1]&4 != 0
+		if d[1]&2 != 0 {
+			r.crc = 1
+		}
+	} else {
+		r.hasIdx = true
+		if r.magic == rboc.MagicIdxCRC {
+			r.crc = 1
+		}
+		if d[1]&1 != 0 {
+			r.flagByte = r.size | 0x80 // stray high bits in the lean size byte
+		}
+	}
+	r.cells, r.roots, r.absent = uint64(d[4]), uint64(d[5]), uint64(d[6])
+	switch d[7] { // cells actually present
+	case 1:
+		r.cellsRaw = []rawCell{{d1: 0, d2: 2, data: []byte{0xa5}}}
+	case 2:
+		r.cellsRaw = []rawCell{{d1: 1, d2: 2, data: []byte{0x5a}, refs: []uint64{1}}, {d1: 0, d2: 1, data: []byte{0x80}}}
+	}
+	r.fix()
+	if r.magic == rboc.MagicGeneric {
+		for i := uint64(0); i < r.roots; i++ {
+			v := i
+			switch d[8] {
+			case 1:
+				v = r.cells // one past the last cell
+			case 2:
+				if r.cells > 0 {
+					v = r.cells - 1
+				}
+			}
+			r.rootList = append(r.rootList, v)
+		}
+	}
+	if d[9] == 1 {
+		r.tot = 0
+	}
+	return r.bytes(), fmt.Sprintf("grid %v", d)
+}
+
+// bitLenCase: a valid bag whose interesting cell has exactly n data bits, n = 0..1023 (the parser gives
+// every cell a 1023-bit capacity, so the last few lengths leave 0, 1, 2 ... bits of room for whatever a
+// post-call appends, e.g. the completion tag of the Fift form), as a root, as a child and as an exotic
+// library-shaped payload; random or all-ones data.
+const bitLenVariants = 4
+
+func bitLenCase(seed uint64, idx int) ([]byte, string) {
+	n, variant := idx%1024, idx/1024
+	rng := mon.NewRng(seed ^ uint64(idx)*0x9e3779b97f4a7c15 ^ 0xb171e4)
+	bits := rng.Bits(n)
+	if variant == 1 {
+		for i := range bits {
+			bits[i] = true
+		}
+	}
+	d2 := byte(n/8 + (n+7)/8)
+	leaf := rawCell{d1: 0, d2: d2, data: cell.PadBits(bits)}
+	r := &rawBoc{magic: rboc.MagicGeneric, flagByte: -1, size: 1, off: 2, roots: 1, rootList: []uint64{0}}
+	switch variant {
+	case 2: // under a parent, twice
+		r.cellsRaw = []rawCell{{d1: 2, d2: 2, data: []byte{0x11}, refs: []uint64{1, 1}}, leaf}
+	case 3: // with the exotic bit (only n = 264 with tag 2 is a well-formed library cell; the others must fail cleanly somewhere)
+		leaf.d1 = 8
+		if len(leaf.data) > 0 {
+			leaf.data[0] = 2
+		}
+		r.cellsRaw = []rawCell{leaf}
+	default:
+		r.cellsRaw = []rawCell{leaf}
+	}
+	r.cells = uint64(len(r.cellsRaw))
+	r.fix()
+	return r.bytes(), fmt.Sprintf("bitlen n=%d variant=%d", n, variant)
 }
 
 // ---------------------------------------------------------------- jobs
@@ -783,11 +895,16 @@ func worker(w *mon.Worker) {
 	corp := corpus(w.Seed, mon.RepoRoot())
 	cpu0 := mon.CPUSeconds()
 	defer func() { w.Count("cpu_ms_"+j.Class, int64((mon.CPUSeconds()-cpu0)*1000)) }()
+	w.CaseCPULimit = caseCPULimit
 	for k := j.From; k < j.To; k++ {
 		var in []byte
 		var desc string
 		if j.Class == "adversarial" {
 			in, desc = adversarial(w.Seed, k)
+		} else if j.Class == "grid" {
+			in, desc = headerGrid(k)
+		} else if j.Class == "bitlen" {
+			in, desc = bitLenCase(w.Seed, k)
 		} else {
 			in, desc = mutate(j.Class, corp[j.Seed], j.Seed, k, corp, w.Seed)
 		}
@@ -878,11 +995,21 @@ func main() {
 		add("edit", si, ne, 20000)
 		add("splice", si, ns, 20000)
 	}
+	add("grid", 0, gridSize, 4000)
+	add("bitlen", 0, 1024*bitLenVariants, 2048)
 	add("adversarial", 0, R.N(12000, 400000), 4000)
 	add("random", 0, R.N(6000, 300000), 20000)
 	R.Extra("jobs", len(jobs))
 	R.Extra("corpus", len(corp))
 	R.RunJobs(jobs, mon.ChildOpts{Parallel: 16, UlimitKiB: 6 << 20, Env: []string{"GOMAXPROCS=2"}}, func(c mon.Crash) {
+		if c.CPUExceeded > 0 {
+			cls := c.Case
+			if i := strings.IndexByte(cls, '/'); i > 0 {
+				cls = cls[:i]
+			}
+			R.Violation("no-return@"+c.CPUStep+"/"+cls, map[string]any{"case": c.Case, "input_hex": mon.HexTrunc(c.Input, 6000), "len": len(c.Input), "cpu_s_when_stopped": c.CPUExceeded, "step": c.CPUStep})
+			return
+		}
 		if c.TimedOut {
 			R.Inconclusive("child watchdog (15 min) fired")
 			return
